@@ -256,7 +256,7 @@ class Meaning:
         self.embedded = embedded                 # follow an @import into the sheet the rule holds (loaded DOM state,
                                                  # after edits) instead of looking its URL up in the file system
         self.item_depth = []                     # import depth of each item
-        self.import_seq = []                     # (href as written, media) of every @import met, depth first
+        self.import_seq = []                     # (absolute URL, media) of every @import met, depth first
         self.top_seq = []                        # … of the sheet's own @import rules
         self.drop_empty = drop_empty             # serialisation leaves out rules without declarations
         self.minified = minified                 # useMinified also drops unknown at-rules and unused @namespace
@@ -298,7 +298,8 @@ class Meaning:
                 except ValueError:
                     full = 'unjoinable:' + r[1]
                 m = media + ((r[2],) if r[2] != 'all' else ())
-                self.import_seq.append((r[1], r[2]))
+                # (the URL it means, not the href as written: an @import kept from an imported sheet may be re-based)
+                self.import_seq.append((full if full.startswith('unjoinable:') else norm_abs(full), r[2]))
                 if self.embedded:
                     if ctx['depth'] > 0 and not full.startswith('unjoinable:'):
                         try:
@@ -314,7 +315,7 @@ class Meaning:
                         self.unavail[(full, m)] += 1
                     continue
                 if ctx['depth'] == 0:
-                    self.top_seq.append((r[1], r[2]))
+                    self.top_seq.append(self.import_seq[-1])
                     self.top_imports.append((r[1], full in self.vfs and full not in chain))
                     self.top_media.append(r[2])
                 else:
